@@ -39,6 +39,9 @@ def make_data(rng, c, other, n=None, stated=None):
     Ea = rng.uniform(-60000, 120000)
     stated = (rng.random() < 0.5) if stated is None else stated
     on_line = rng.random() < 0.6
+    # an experiment table read from CSV with the optional activation-energy cell left blank carries NaN, not None:
+    # the measured value at an experiment's own temperature is then still well defined (the only clause checked)
+    blank = (not stated) and rng.random() < 0.15
     Tr, Pr = temps[0], gens.loguniform(rng, 1e-4, 1.0)
     units = rng.choice(['kg/(m2*h*kPa)', 'SI', 'GPU'])
     kgP, exps = [], []
@@ -48,10 +51,10 @@ def make_data(rng, c, other, n=None, stated=None):
             p *= math.exp(rng.uniform(-0.2, 0.2))
         kgP.append(p)
         pu = pv.Permeance(p).convert(units, c)
-        exps.append(IdealExperiment(name='x', temperature=t, component=c, permeance=pu, activation_energy=Ea if stated else None))
+        exps.append(IdealExperiment(name='x', temperature=t, component=c, permeance=pu, activation_energy=Ea if stated else (float('nan') if blank else None)))
         if rng.random() < 0.4:
             exps.append(IdealExperiment(name='o', temperature=t + 1.0, component=other, permeance=pv.Permeance(0.001), activation_energy=1000.0))
-    return dict(temps=temps, Ea=Ea, stated=stated, on_line=on_line, Tr=Tr, Pr=Pr, units=units, kgP=kgP, exps=exps)
+    return dict(temps=temps, Ea=Ea, stated=stated, on_line=on_line, Tr=Tr, Pr=Pr, units=units, kgP=kgP, exps=exps, blank=blank)
 
 
 def check(mem, c, other, d, rng):
@@ -59,7 +62,7 @@ def check(mem, c, other, d, rng):
     temps, Ea, stated, on_line, Tr, Pr, kgP, exps = d['temps'], d['Ea'], d['stated'], d['on_line'], d['Tr'], d['Pr'], d['kgP'], d['exps']
     ok, detail = True, ''
     try:
-        if rng.random() < 0.35:
+        if rng.random() < 0.35 or d.get('blank'):
             j = rng.randrange(len(temps))
             q = mem.get_permeance(temps[j], c)
             if not (rel_close(q.value, kgP[j], 1e-9) and q.units == 'kg/(m2*h*kPa)'):
@@ -142,7 +145,7 @@ def oracle(rng, tier):
             if r is None:
                 continue
             ok, detail = r
-            case = {'component': c.name, 'temps': d['temps'], 'Ea': d['Ea'], 'stated': d['stated'], 'on_line': d['on_line'], 'units': d['units'],
+            case = {'component': c.name, 'temps': d['temps'], 'Ea': d['Ea'], 'stated': d['stated'], 'on_line': d['on_line'], 'units': d['units'], 'blank_Ea': d.get('blank', False),
                     'P_kg': d['kgP'], 'history': history}
             yield {'kind': '%s:%s:n=%d%s' % ('stated' if d['stated'] else 'unstated', d['units'], len(d['temps']), ':edited' if round_ else ''),
                    'case': case, 'ok': ok, 'detail': detail + ('' if ok else ' [%s]' % history), 'nontrivial': len(d['temps']) >= 2}
